@@ -123,7 +123,17 @@ PanicStuck == /\ Is("panic") /\ DevStuck
                  Len(s) > 0 /\ ScanStuck(dict, opts, s, STab(dict, s, DevAstralNul))
               /\ UNCHANGED <<dict, opts, ws, cnt, memo>>
 
-Next == PanicStuck \/ Session \/ Reset \/ Tok \/ Read \/ CInit \/ CUpd \/ Probs \/ Respace \/ OptErr
+(* a panic ends its session.  "never panics" is a clause of C01 (tokenization), C13 (the
+   counter calls) and C10 (building); under any other Prop the event is consumed without
+   assertion so that the rejection is attributed to the property that owns the clause *)
+PanicElsewhere ==
+   /\ Is("panic")
+   /\ \/ (E.op.op \in {"tok", "reset", "read", "respace"} /\ ~On("C01"))
+      \/ (E.op.op \in {"cinit", "cupd", "probs"} /\ ~On("C13"))
+      \/ (E.op.op = "build" /\ ~On("C10"))
+   /\ UNCHANGED <<dict, opts, ws, cnt, memo>>
+
+Next == PanicStuck \/ PanicElsewhere \/ Session \/ Reset \/ Tok \/ Read \/ CInit \/ CUpd \/ Probs \/ Respace \/ OptErr
 Spec == Init /\ [][Next]_vars
 
 Accepted ==
